@@ -108,6 +108,15 @@ let frm_case (chunks : String.t) : String.t =
       end) (String.split_on_char ',' chunks);
   Printf.sprintf "%s rest=%d" (String.concat "," (List.rev !out)) (List.length !buf)
 
+(* SCK: the socket reader on these reads (the fuel exceeds the number of frames any stream of that size holds) *)
+let sck_case (chunks : String.t) : String.t =
+  let reads = List.filter (fun c -> c <> []) (List.map (fun ch -> if ch = "-" then [] else bytes_of_hex ch) (String.split_on_char ',' chunks)) in
+  let total = List.fold_left (fun a c -> a + List.length c) 0 reads in
+  let rec nat_of k = if k <= 0 then O else S (nat_of (k - 1)) in
+  let (frames, e) = read_all valid_modern (nat_of (total / 19 + 2)) [] reads in
+  Printf.sprintf "%s end=%s" (String.concat "," (List.map hex_of_bytes frames))
+    (match e with RdEof -> "EOF" | RdErr -> "E" | RdPanic -> "PANIC" | RdFuel -> "FUEL")
+
 let run (args : String.t list) =
   match args with
   | [file] ->
@@ -116,6 +125,7 @@ let run (args : String.t list) =
         | ["FSM"; id; d; hold; ap; steps] -> Printf.printf "FSM %s %s\n" id (fsm_case (d = "1") (int_of_string hold) ap steps)
         | ["FSM"; id; d; hold; ap] -> Printf.printf "FSM %s %s\n" id (fsm_case (d = "1") (int_of_string hold) ap "")
         | ["FRM"; id; chunks] -> Printf.printf "FRM %s %s\n" id (frm_case chunks)
+        | ["SCK"; id; _mode; chunks] -> Printf.printf "SCK %s %s\n" id (sck_case chunks)
         | ["RDM"; id; h] ->
           let src = bytes_of_hex h in
           let rec split k l = if k = 0 then ([], l) else match l with x :: tl -> let (a, r) = split (k - 1) tl in (x :: a, r) | [] -> ([], []) in
